@@ -671,14 +671,10 @@ impl BinArchive {
         if address >= self.data.len() {
             return Ok(());
         }
-        let range = address..self.data.len();
-        let end = range.end;
-        self.data.drain(range);
-        for i in (address..=end).step_by(4) {
-            self.text.remove(&i);
-            self.labels.remove(&i);
-            self.pointers.remove(&i);
-        }
+        self.data.truncate(address);
+        self.text.retain(|cell, _| *cell < address);
+        self.labels.retain(|cell, _| *cell < address);
+        self.pointers.retain(|cell, _| *cell < address);
         for cells in self.cstrings.values_mut() {
             cells.retain(|cell| *cell < address);
         }
